@@ -1,6 +1,7 @@
 import sqlalchemy as sa
+from sqlalchemy_utils import get_primary_keys
 from .operation import Operation
-from .utils import versioned_column_properties, parent_class
+from .utils import parent_class, tx_column_name, versioned_column_properties
 
 
 def first_level(paths):
@@ -53,10 +54,11 @@ class Reverter(object):
             setattr(self.version_parent, prop.key, [])
             for child_obj in getattr(self.obj, prop.key):
                 value = self.revert_child(child_obj, prop)
-                if value:
-                    getattr(self.version_parent, prop.key).append(
-                        value
-                    )
+                # A dotted path leading back to this object (backref) may
+                # have linked the child already.
+                collection = getattr(self.version_parent, prop.key)
+                if value and value not in collection:
+                    collection.append(value)
         else:
             setattr(self.version_parent, prop.key, None)
             value = getattr(self.obj, prop.key)
@@ -106,8 +108,26 @@ class Reverter(object):
 
                 self.revert_relationship(prop)
 
+    def entity_key(self, version_obj):
+        tx_column = tx_column_name(version_obj)
+        return (parent_class(version_obj.__class__),) + tuple(
+            getattr(version_obj, pk)
+            for pk in get_primary_keys(version_obj.__class__)
+            if pk != tx_column
+        )
+
+    def is_visited(self):
+        # An entity is reverted at most once per call: a cyclic dotted path
+        # (child.parent, labels.articles) reaches the same entity again,
+        # possibly through another of its versions.
+        key = self.entity_key(self.obj)
+        return any(
+            obj is self.obj or self.entity_key(obj) == key
+            for obj in self.visited_objects
+        )
+
     def __call__(self):
-        if self.obj in self.visited_objects:
+        if self.is_visited():
             return (
                 None if self.obj.operation_type == Operation.DELETE
                 else self.version_parent
